@@ -4,7 +4,7 @@
    No Extract Constant, no further Extract Inductive. *)
 From Coq Require Import ExtrOcamlBasic.
 From LoraV Require Import Base.Prelude Model.Toa Spec.Airtime Model.Ldro Spec.LdroSpec
-  Base.Bytes Crypto.AES Crypto.CMAC Model.Frame Spec.L2Frame Model.Exec Model.MacCmd Gen.CmdTables Model.MacFields Model.Region Model.Mac Model.Persist Gen.PhyTables Model.PhyCore Model.Sx126x Model.Sx127x Model.LoraDrv Model.LoraKinds Spec.ChipMon Model.AsyncDev.
+  Base.Bytes Crypto.AES Crypto.CMAC Model.Frame Spec.L2Frame Model.Exec Model.MacCmd Gen.CmdTables Model.MacFields Model.Region Model.Mac Model.Persist Gen.PhyTables Model.PhyCore Model.Sx126x Model.Sx127x Model.LoraDrv Model.LoraKinds Spec.ChipMon Model.AsyncDev Model.NbDev.
 Extraction Language OCaml.
 Extraction "model.ml"
   Toa.toa_us Toa.toa_safe Toa.ldro Toa.t_sym_us Toa.bw_hz
@@ -43,4 +43,4 @@ Extraction "model.ml"
   LoraDrv.get_rx_result LoraDrv.rx_switch_channel LoraDrv.listen LoraDrv.prepare_for_cad LoraDrv.cad LoraDrv.process_irq_event
   LoraDrv.wait_for_irq LoraDrv.lw_tx LoraDrv.lw_setup_rx LoraDrv.lw_low_power LoraDrv.adapter_symbols PhyCore.attempt
   ChipMon.mon_op ChipMon.power_on ChipMon.all_items ChipMon.item_tag
-  Exec.x_adev_send Exec.x_adev_join Exec.x_adev_listen AsyncDev.fcnt_up_of.
+  Exec.x_adev_send Exec.x_adev_join Exec.x_adev_listen AsyncDev.fcnt_up_of Exec.x_nb_handle_event.
